@@ -148,6 +148,17 @@ mut("C18", "dI2-shear-coef", E + "Models/HyperElastic/_state.py", "        coef 
 mut("C18", "spk-thickness-residual-only", E + "FEM/Operators/NonLinear.py", "        thickness = material.thickness\n        tangent_e *= thickness\n        residual_e *= thickness\n\n    K_e, R_e = __reorder_dofs(dim, nPe, tangent_e, residual_e)\n    return K_e, R_e\n\n\ndef GonzalezStressTensor", "        thickness = material.thickness\n        residual_e *= thickness\n\n    K_e, R_e = __reorder_dofs(dim, nPe, tangent_e, residual_e)\n    return K_e, R_e\n\n\ndef GonzalezStressTensor", "SecondPiolaKirchhoffStressTensor")
 mut("C03", "assembly-drop-empty-K", E + "Simulations/_simu.py", "        dict_KCMF = self.Construct_local_matrix_system(problemType)\n", "        dict_KCMF = {g: t for g, t in self.Construct_local_matrix_system(problemType).items() if t[0] is not None}\n", "Assembly")
 mut("C07", "weighted-jacobian-mean", E + "FEM/_mesh.py", "            values_e = jacobian_e_pg.max(1) / jacobian_e_pg.min(1)", "            values_e = jacobian_e_pg.max(1) / jacobian_e_pg.mean(1)", "unweighted")
+mut("C17", "plane-sqrt-unclamped", E + "Models/_phasefield.py", "            delta = np.maximum(delta, 0.0)\n", "", "sqrt")
+mut("C17", "plane-beta-limit-dropped", E + "Models/_phasefield.py", "            BetaP[eq12] = dvalp[..., 0][eq12]\n", "", "__Spectral_Decomposition")
+mut("C17", "plane-beta-limit-one", E + "Models/_phasefield.py", "            BetaP[eq12] = dvalp[..., 0][eq12]\n", "            BetaP[eq12] = 1.0\n", "__Spectral_Decomposition")
+mut("C17", "plane-M1-not-normalised", E + "Models/_phasefield.py", "                m1_tot = (matrix_e_pg - eigs_e_pg[:, :, 1] * I_e_pg) / v1_m_v2\n", "                m1_tot = (matrix_e_pg - eigs_e_pg[:, :, 1] * I_e_pg)\n", "_Eigen_values_vectors_projectors")
+same("C17", "plane-sqrt-clip", E + "Models/_phasefield.py", "            delta = np.maximum(delta, 0.0)\n", "            delta = np.clip(delta, 0.0, None)\n")
+mut("C13", "field-value-ignores-dof", E + "FEM/_field.py", "        array[..., self._Get_current_active_dof()] = N_pg[..., node].reshape(1, nPg)\n", "        array[..., :] = N_pg[..., node].reshape(1, nPg, 1)\n", "Integrate_e")
+mut("C10", "beam-own-axis-dropped", E + "FEM/Elems/_beam.py", "            F_e_pg = np.abs(F_e_pg)\n", "            pass\n", "Get_dN_e_pg")
+mut("C17", "history-single-array", E + "Simulations/_phasefield.py", "        self.__psiP_e_pg[groupElem] = FeArray.asfearray(psiP_e_pg)\n\n        return self.__psiP_e_pg[groupElem]\n", "        self.__psiP_e_pg = FeArray.asfearray(psiP_e_pg)\n\n        return self.__psiP_e_pg\n", "per-group-state")
+mut("C09", "empty-load-modulo", E + "FEM/_boundary_conditions.py", "        if self.nodes.size == 0:\n            # a condition on no node (e.g. a load on nodes that bound no element) holds no dof\n            assert self.dofs.size == 0, \"dofs must be empty when nodes is empty\"\n        else:\n            assert (\n                self.dofs.size % self.nodes.size == 0\n            ), f\"dofs.size must be a multiple of {self.nodes.size}\"\n", "        assert (\n            self.dofs.size % self.nodes.size == 0\n        ), f\"dofs.size must be a multiple of {self.nodes.size}\"\n", "empty-selection")
+mut("C09", "empty-normals-concatenate", E + "FEM/_mesh.py", "        if len(list_normal) == 0:\n            # the nodes bound no boundary element\n            return np.zeros((0, 3), dtype=float), nodes\n", "", "empty-selection")
+same("C09", "empty-normals-empty", E + "FEM/_mesh.py", "            return np.zeros((0, 3), dtype=float), nodes\n", "            return np.empty((0, 3), dtype=float), nodes\n")
 mut("C04", "lagrange-row-per-entry", E + "Simulations/Solvers.py", "    dofs_Dirichlet, inverse = np.unique(dofs_Dirichlet, return_inverse=True)\n    summed_values = np.zeros(dofs_Dirichlet.size, dtype=values_Dirichlet.dtype)\n    np.add.at(summed_values, inverse, values_Dirichlet)\n    values_Dirichlet = summed_values\n", "", "__Solver_2")
 mut("C04", "lagrange-last-value-wins", E + "Simulations/Solvers.py", "    np.add.at(summed_values, inverse, values_Dirichlet)\n", "    summed_values[inverse] = values_Dirichlet\n", "__Solver_2")
 mut("C04", "lagrange-dim-raw-count", E + "Simulations/_simu.py", "            nBc += np.unique(self.Bc_dofs_Dirichlet(problemType)).size", "            nBc += len(self.Bc_dofs_Dirichlet(problemType))", "_Bc_Lagrange_dim")
